@@ -93,7 +93,7 @@ class Build:
             tag = os.path.relpath(s, REPO + '/src').replace('/', '_')[:-4]
             jobs.append(['clang++-14'] + CXXDEFS + ['-O1', '-Xclang', '-disable-llvm-passes', '-gline-tables-only', '-w', '-S', '-emit-llvm', s, '-o', '%s/ll/%s.ll' % (self.dir, tag)])
             if native:
-                jobs.append(['g++'] + CXXDEFS + ['-O1', '-g1', '-fsanitize=address,undefined', '-fno-sanitize-recover=undefined', '-fno-omit-frame-pointer', '-w', '-c', s, '-o', '%s/obj/%s.o' % (self.dir, tag)])
+                jobs.append(['g++'] + CXXDEFS + ['-O1', '-g1', '-fsanitize=address,undefined', '-fno-sanitize=vptr', '-fno-sanitize-recover=undefined', '-fno-omit-frame-pointer', '-w', '-c', s, '-o', '%s/obj/%s.o' % (self.dir, tag)])
         with ThreadPoolExecutor(NCPU) as ex:
             for r in ex.map(must, jobs): pass
         lls = sorted(self.dir + '/ll/' + f for f in os.listdir(self.dir + '/ll'))
@@ -255,7 +255,7 @@ class Build:
         if u.differential:
             must(['gcc', '-O1', '-w', '-DVP_NATIVE', '-DVP_REAL', '-I' + ENGINE, '-c', ENGINE + '/rt.c', '-o', d + '/rt_real.o'])
             must(['gcc', '-w', '-c', d + '/entries.c', '-o', d + '/entries.o'])
-            must(['g++'] + CXXDEFS + ['-I' + VERIF + '/shim', '-O1', '-g1', '-fsanitize=address,undefined', '-fno-sanitize-recover=undefined', '-w', d + '/shim.cpp', ENGINE + '/real_main.cpp',
+            must(['g++'] + CXXDEFS + ['-I' + VERIF + '/shim', '-O1', '-g1', '-fsanitize=address,undefined', '-fno-sanitize=vptr', '-fno-sanitize-recover=undefined', '-w', d + '/shim.cpp', ENGINE + '/real_main.cpp',
                   d + '/rt_real.o', d + '/entries.o'] + self.objs + ['-o', d + '/real', '-lpcap', '-lcrypto', '-lpthread'])
             u.real_bin = d + '/real'
 
